@@ -35,7 +35,7 @@ void harness(void) {
   MUSTFAIL(!(r && substr && prefix), "token_prefix_match_reachable");
   MUSTFAIL(r, "nomatch_reachable");
 }
-#else
+#elif WHICH == 2
 #ifndef PATHMAX
 #define PATHMAX 5
 #endif
@@ -77,5 +77,55 @@ void harness(void) {
   CHECK(g >= written || buf[g] == want, "every byte written is the corresponding character of the full link");
   MUSTFAIL(!(written == B && B > 3 && o0 > 4 && has_value && (r & COAP_PRINT_STATUS_TRUNC)), "middle_window_reachable");
   MUSTFAIL(!(o0 + B == L && B > 0), "window_ends_at_end_reachable");
+}
+#elif WHICH == 3
+/* unit wk_print_wellknown_b: coap_print_wellknown_lkd over a resource table of 0..2 resources, no query filter: the window
+ * [offset, offset+buflen) of the comma-separated listing, total length, truncation flag; the application's own
+ * ".well-known/core" resource is left out.  coap_print_link is the real body. */
+#ifndef PATHMAX
+#define PATHMAX 3
+#endif
+#ifndef BMAX
+#define BMAX 14
+#endif
+static uint8_t link_char(const uint8_t *path, size_t pl, int obs, size_t k) {   /* character k of  </path>[;obs] */
+  return k == 0 ? '<' : k == 1 ? '/' : k < 2 + pl ? path[k - 2] : k == 2 + pl ? '>' : ";obs"[(k - 3 - pl) & 3];
+}
+void harness(void) {
+  static coap_context_t ctx_o; static coap_resource_t r0, r1; static coap_str_const_t sp0, sp1;
+  coap_context_t *ctx = &ctx_o; coap_resource_t *const res[2] = { &r0, &r1 }; coap_str_const_t *const sp[2] = { &sp0, &sp1 };
+  IN_SCALAR(uint8_t, nres); IN_SCALAR(size_t, pl0); IN_SCALAR(size_t, pl1); IN_SCALAR(_Bool, obs0); IN_SCALAR(_Bool, obs1); IN_SCALAR(_Bool, wk0);
+  IN_SCALAR(size_t, B); IN_SCALAR(size_t, o0); IN_SCALAR(size_t, g);
+  IN_BYTES(path0, PATHMAX); IN_BYTES(path1, PATHMAX);
+  ASSUME(nres <= 2 && pl0 <= PATHMAX && pl1 <= PATHMAX && B <= BMAX && o0 <= 24);
+  const size_t pl[2] = { pl0, pl1 }; const _Bool obs[2] = { obs0, obs1 }; const uint8_t *const pb[2] = { path0.b, path1.b };
+  for (int i = 0; i < 2; i++) {
+#ifdef VERIF_NATIVE
+    memset(res[i], 0, sizeof(coap_resource_t));
+#endif
+    res[i]->hh.next = (i + 1 < nres) ? res[1] : NULL; res[i]->uri_path = sp[i]; res[i]->link_attr = NULL; res[i]->observable = obs[i]; res[i]->flags = 0;
+    sp[i]->s = pb[i]; sp[i]->length = pl[i];
+  }
+  if (wk0) { sp0.s = (const uint8_t *)COAP_DEFAULT_URI_WELLKNOWN; sp0.length = sizeof(COAP_DEFAULT_URI_WELLKNOWN) - 1; }
+  ctx->resources = nres ? res[0] : NULL;
+  IN_BUF_FIXED(buf, BMAX);      /* constant-size object (a symbolic-size one ran out of memory); bytes beyond B are checked to be untouched */
+  IN_SCALAR(size_t, h); ASSUME(h < BMAX); const uint8_t old_h = buf[h];
+  size_t buflen = B;
+  coap_print_status_t r = coap_print_wellknown_lkd(ctx, buf, &buflen, o0, NULL);
+  /* independent definition of the listing: the links of the listed resources separated by ',' */
+  int listed0 = nres >= 1 && !wk0, listed1 = nres >= 2;
+  size_t L0 = listed0 ? 3 + pl0 + (obs0 ? 4 : 0) : 0, L1 = listed1 ? 3 + pl1 + (obs1 ? 4 : 0) : 0, sep = (listed0 && listed1) ? 1 : 0;
+  size_t L = L0 + sep + L1;
+  size_t k = o0 + g;
+  uint8_t want = k < L0 ? link_char(path0.b, pl0, obs0, k) : (sep && k == L0) ? ',' : link_char(path1.b, pl1, obs1, k - L0 - sep);
+  size_t skipped = MIN_(o0, L), written = MIN_(B, L - skipped);
+  CHECK(!(r & COAP_PRINT_STATUS_ERROR), "no error for a listing that fits the status word");
+  CHECK(buflen == L, "coap_print_wellknown_lkd reports the exact total length of the listing (separators included, the application's .well-known/core resource left out)");
+  CHECK(COAP_PRINT_OUTPUT_LENGTH(r) == written, "exactly the window [offset, offset+buflen) of the listing is written");
+  CHECK(B == 0 || (((r & COAP_PRINT_STATUS_TRUNC) != 0) == (skipped + written < L)), "for a non-empty buffer the truncation flag is set exactly when listing remains beyond the window");
+  CHECK(g >= written || buf[g] == want, "every byte written is the corresponding character of the full listing");
+  CHECK(h < written || buf[h] == old_h, "nothing is written beyond the window (in particular not beyond the buffer length given)");
+  MUSTFAIL(!(written == B && B > 2 && o0 > L0 && listed0 && listed1 && (r & COAP_PRINT_STATUS_TRUNC)), "window_in_second_link_reachable");
+  MUSTFAIL(!(o0 + B == L && B > 0 && sep), "window_ends_at_end_reachable"); MUSTFAIL(!(wk0 && nres == 2 && written > 0), "wellknown_skipped_reachable");
 }
 #endif
